@@ -28,6 +28,8 @@ def k7_unit(cls):
         P.top_class = cls
         obj = gen.sym_object(P, cls, 'o')
         P.inputs['object'] = obj
+        from checks import regions
+        regions.exclude(P, obj)
         out = vc.outcome_of(lambda: I.call(I.getattr_(obj, 'compose'), [], {}))
         if out.kind == 'raise':
             raise E.PathEnd()                 # outside Valid_C
@@ -134,4 +136,5 @@ def units(tier, seed):
     return out
 
 
-FINDING_REPLAYS = {}
+from checks import regions as _regions
+FINDING_REPLAYS = _regions.finding_replays('C04')
